@@ -27,9 +27,12 @@ Definition slices_fuel (total slice : Z) : nat := S (Z.to_nat (total / (Z.max sl
 Definition get_slices (total slice : Z) : option (list Z) :=
   get_slices_fuel (slices_fuel total slice) total slice.
 
-(** [get_time_limit]: [None] models the [expect("overflow")] panic on a negative field. *)
+(** [get_time_limit]: a negative [tv_sec] (Linux setsockopt accepts it and stores a zero timeout:
+    operations time out at once) gives the shortest limit, 1 ns; [None] models the
+    [expect("overflow")] panic on a negative [tv_usec]. *)
 Definition get_time_limit (sec usec : Z) : option Z :=
-  if (sec <? 0) || (usec <? 0) then None
+  if sec <? 0 then Some 1
+  else if usec <? 0 then None
   else
     let t := sat_add64 (sat_mul64 sec 1000000000) (sat_mul64 usec 1000) in
     Some (if t =? 0 then U64MAX else t).
